@@ -191,7 +191,18 @@ func VH23b_listener() {
 		setCO(false)
 		setCO(true)
 	}
-	verif.Assert(l.Listen() == nil, lab+"/listen")
+	// the client may get through the application's HTTP server before Listen is called on the mangos listener
+	// (the handler is mounted already): its connection waits and is accepted once Listen has been called
+	early := (co == 0 || co == 1 || co == 2 || co == 4) && verif.Choice("upgrade-before-listen", 2) == 1
+	if early {
+		verif.Reach("upgraded-before-listen")
+	}
+	listenNow := func() {
+		verif.Assert(l.Listen() == nil, lab+"/listen")
+	}
+	if !early {
+		listenNow()
+	}
 	switch co {
 	case 3:
 		setCO(false)
@@ -230,6 +241,10 @@ func VH23b_listener() {
 	})
 	verif.Go("serve", func() { h.ServeHTTP(&nullWriter{hdr: http.Header{}}, req) })
 	verif.Quiesce()
+	if early {
+		listenNow()
+		verif.Quiesce()
+	}
 	offered := false
 	for _, o := range offer {
 		if o == self {
